@@ -139,9 +139,6 @@ theorem nodup_getElem?_inj {l : List Nat} (hl : l.Nodup) {i j : Nat} {x : Nat}
         simp at hi hj
         rw [ih hl.2 hi hj]
 
-theorem mem_iff_getElem?' {l : List Nat} {x : Nat} : x ∈ l ↔ ∃ i, l[i]? = some x :=
-  List.mem_iff_getElem?
-
 /-- flipping the predicate at one member of a duplicate-free list -/
 theorem countP_flip {l : List Nat} (hl : l.Nodup) {a : Nat} (ha : a ∈ l) (p p' : Nat → Bool)
     (hpa : p a = true) (hpa' : p' a = false) (h : ∀ x, x ≠ a → p' x = p x) :
@@ -205,7 +202,15 @@ theorem step_recv {t : Nat} : step cfg g f s (.recv t) = some s' ↔
     (t ≤ g.n ∧ s.phase t = .queued ∧ s.disp = none ∧ s.closed = false) ∧
     s' = { s with phase := upd s.phase t .held, disp := some t, now := s.now + 1 } := by
   simp only [step]
-  split <;> simp_all [eq_comm]
+  split
+  · rename_i h
+    constructor
+    · intro h'; exact ⟨h, (Option.some.inj h').symm⟩
+    · rintro ⟨_, rfl⟩; rfl
+  · rename_i h
+    constructor
+    · intro h'; cases h'
+    · rintro ⟨h', _⟩; exact absurd h' h
 
 theorem step_start_tok {t : Nat} : step cfg g f s (.start t true) = some s' ↔
     (s.disp = some t ∧ s.phase t = .held ∧ s.sem + s.env < cfg.c) ∧
@@ -213,8 +218,21 @@ theorem step_start_tok {t : Nat} : step cfg g f s (.start t true) = some s' ↔
                   startAt := upd s.startAt t (some s.now), now := s.now + 1 } := by
   simp only [step]
   split
-  · split <;> simp_all [eq_comm]
-  · simp_all
+  · rename_i h
+    simp only [if_true]
+    split
+    · rename_i h2
+      constructor
+      · intro h'; exact ⟨⟨h.1, h.2, h2⟩, (Option.some.inj h').symm⟩
+      · rintro ⟨_, rfl⟩; rfl
+    · rename_i h2
+      constructor
+      · intro h'; cases h'
+      · rintro ⟨h', _⟩; exact absurd h'.2.2 h2
+  · rename_i h
+    constructor
+    · intro h'; cases h'
+    · rintro ⟨h', _⟩; exact absurd ⟨h'.1, h'.2.1⟩ h
 
 theorem step_start_inline {t : Nat} : step cfg g f s (.start t false) = some s' ↔
     (s.disp = some t ∧ s.phase t = .held ∧ cfg.buffered = true) ∧
@@ -222,8 +240,21 @@ theorem step_start_inline {t : Nat} : step cfg g f s (.start t false) = some s' 
                   startAt := upd s.startAt t (some s.now), now := s.now + 1 } := by
   simp only [step]
   split
-  · split <;> simp_all [eq_comm]
-  · simp_all
+  · rename_i h
+    simp only [Bool.false_eq_true, if_false]
+    split
+    · rename_i h2
+      constructor
+      · intro h'; exact ⟨⟨h.1, h.2, h2⟩, (Option.some.inj h').symm⟩
+      · rintro ⟨_, rfl⟩; rfl
+    · rename_i h2
+      constructor
+      · intro h'; cases h'
+      · rintro ⟨h', _⟩; exact absurd h'.2.2 h2
+  · rename_i h
+    constructor
+    · intro h'; cases h'
+    · rintro ⟨h', _⟩; exact absurd ⟨h'.1, h'.2.1⟩ h
 
 theorem step_exec {a : Nat} : step cfg g f s (.exec a) = some s' ↔
     ∃ tok, s.phase a = .running tok ∧
@@ -236,17 +267,30 @@ theorem step_exec {a : Nat} : step cfg g f s (.exec a) = some s' ↔
   simp only [step]
   split
   · rename_i tok h
-    simp [h, eq_comm]
+    constructor
+    · intro h'; exact ⟨tok, h, (Option.some.inj h').symm⟩
+    · rintro ⟨tok', h1, rfl⟩
+      rw [h] at h1
+      cases h1
+      rfl
   · rename_i h
-    simp
-    intro tok ht
-    exact absurd ht (h tok)
+    constructor
+    · intro h'; cases h'
+    · rintro ⟨tok, h1, _⟩; exact absurd h1 (h tok)
 
 theorem step_rel {a : Nat} : step cfg g f s (.rel a) = some s' ↔
     s.phase a = .finished ∧
     s' = { s with phase := upd s.phase a (.trig 0), sem := s.sem - 1, now := s.now + 1 } := by
   simp only [step]
-  split <;> simp_all [eq_comm]
+  split
+  · rename_i h
+    constructor
+    · intro h'; exact ⟨h, (Option.some.inj h').symm⟩
+    · rintro ⟨_, rfl⟩; rfl
+  · rename_i h
+    constructor
+    · intro h'; cases h'
+    · rintro ⟨h', _⟩; exact absurd h' h
 
 theorem step_dec {a t : Nat} : step cfg g f s (.dec a t) = some s' ↔
     ∃ k, s.phase a = .trig k ∧ (g.trig a)[k]? = some t ∧
@@ -264,20 +308,44 @@ theorem step_dec {a t : Nat} : step cfg g f s (.dec a t) = some s' ↔
   simp only [step]
   split
   · rename_i k h
-    simp only [h, Phase.trig.injEq, exists_eq_left']
     split
     · rename_i h2
       split
       · rename_i h3
         split
-        · simp_all [eq_comm]
-        · simp_all
-      · simp_all [eq_comm]
-    · simp_all
+        · rename_i h4
+          constructor
+          · intro h'; exact ⟨k, h, h2, Or.inl ⟨h3, h4, (Option.some.inj h').symm⟩⟩
+          · rintro ⟨k', h1, _, hh⟩
+            rw [h] at h1; cases h1
+            rcases hh with ⟨_, _, rfl⟩ | ⟨h5, _⟩
+            · rfl
+            · exact absurd h3 h5
+        · rename_i h4
+          constructor
+          · intro h'; cases h'
+          · rintro ⟨k', h1, _, hh⟩
+            rcases hh with ⟨_, h5, _⟩ | ⟨h5, _⟩
+            · exact absurd h5 h4
+            · exact absurd h3 h5
+      · rename_i h3
+        constructor
+        · intro h'; exact ⟨k, h, h2, Or.inr ⟨h3, (Option.some.inj h').symm⟩⟩
+        · rintro ⟨k', h1, _, hh⟩
+          rw [h] at h1; cases h1
+          rcases hh with ⟨h5, _⟩ | ⟨_, rfl⟩
+          · exact absurd h5 h3
+          · rfl
+    · rename_i h2
+      constructor
+      · intro h'; cases h'
+      · rintro ⟨k', h1, h3, _⟩
+        rw [h] at h1; cases h1
+        exact absurd h3 h2
   · rename_i h
-    simp
-    intro k hk
-    exact absurd hk (h k)
+    constructor
+    · intro h'; cases h'
+    · rintro ⟨k, h1, _⟩; exact absurd h1 (h k)
 
 theorem step_sent {a t : Nat} : step cfg g f s (.sent a t) = some s' ↔
     ∃ k, s.phase a = .sending k ∧ (g.trig a)[k]? = some t ∧
@@ -286,18 +354,23 @@ theorem step_sent {a t : Nat} : step cfg g f s (.sent a t) = some s' ↔
   simp only [step]
   split
   · rename_i k h
-    simp only [h, Phase.sending.injEq, exists_eq_left']
     split
     · rename_i h2
-      simp [h2, eq_comm]
+      constructor
+      · intro h'; exact ⟨k, h, h2.1, h2.2, (Option.some.inj h').symm⟩
+      · rintro ⟨k', h1, _, _, rfl⟩
+        rw [h] at h1; cases h1
+        rfl
     · rename_i h2
-      simp
-      intro h3 h4
-      exact absurd ⟨h3, h4⟩ h2
+      constructor
+      · intro h'; cases h'
+      · rintro ⟨k', h1, h3, h4, _⟩
+        rw [h] at h1; cases h1
+        exact absurd ⟨h3, h4⟩ h2
   · rename_i h
-    simp
-    intro k hk
-    exact absurd hk (h k)
+    constructor
+    · intro h'; cases h'
+    · rintro ⟨k, h1, _⟩; exact absurd h1 (h k)
 
 theorem step_fin {a : Nat} : step cfg g f s (.fin a) = some s' ↔
     s.phase a = .trig (g.trig a).length ∧
@@ -305,16 +378,40 @@ theorem step_fin {a : Nat} : step cfg g f s (.fin a) = some s' ↔
                   disp := if s.disp = some a then none else s.disp
                   now := s.now + 1 } := by
   simp only [step]
-  split <;> simp_all [eq_comm]
+  split
+  · rename_i h
+    constructor
+    · intro h'; exact ⟨h, (Option.some.inj h').symm⟩
+    · rintro ⟨_, rfl⟩; rfl
+  · rename_i h
+    constructor
+    · intro h'; cases h'
+    · rintro ⟨h', _⟩; exact absurd h' h
 
 theorem step_envAcq : step cfg g f s .envAcq = some s' ↔
     s.sem + s.env < cfg.c ∧ s' = { s with env := s.env + 1, now := s.now + 1 } := by
   simp only [step]
-  split <;> simp_all [eq_comm]
+  split
+  · rename_i h
+    constructor
+    · intro h'; exact ⟨h, (Option.some.inj h').symm⟩
+    · rintro ⟨_, rfl⟩; rfl
+  · rename_i h
+    constructor
+    · intro h'; cases h'
+    · rintro ⟨h', _⟩; exact absurd h' h
 
 theorem step_envRel : step cfg g f s .envRel = some s' ↔
     0 < s.env ∧ s' = { s with env := s.env - 1, now := s.now + 1 } := by
   simp only [step]
-  split <;> simp_all [eq_comm]
+  split
+  · rename_i h
+    constructor
+    · intro h'; exact ⟨h, (Option.some.inj h').symm⟩
+    · rintro ⟨_, rfl⟩; rfl
+  · rename_i h
+    constructor
+    · intro h'; cases h'
+    · rintro ⟨h', _⟩; exact absurd h' h
 
 end Verif.C06
